@@ -87,7 +87,14 @@ def kinds():
     def nested(span):
         return Lk({'x': Traced(span, c=0.5, G=1.0)})
 
-    return {'container': container, 'model': model(Simple), 'aliased': model(Aliased), 'traced': model(Traced), 'mixins': model(Both),
+    class Lk0(fsic.BaseLinker):
+        pass
+
+    def empty_linker(span):
+        # a linker created with no `submodels` argument at all (submodels may be attached to it later)
+        return Lk0()
+
+    return {'linker-empty': empty_linker, 'container': container, 'model': model(Simple), 'aliased': model(Aliased), 'traced': model(Traced), 'mixins': model(Both),
             'linker': linker, 'linker-traced-submodel': nested}
 
 
@@ -104,13 +111,13 @@ def mutations(obj, rng):
     idx = [k for k in d['index'] if k != 'trace' and isinstance(d.get('_' + k), np.ndarray)]
     num = [k for k in idx if d['_' + k].dtype.kind in 'fi']
     n = len(d['span'])
-    if num:
+    if num and n:
         k = rng.choice(num)
         i = rng.randrange(n)
         out += [('inplace-write', lambda: d['_' + k].__setitem__(i, 99)), ('whole-series', lambda: setattr(obj, k, [7] * n)),
                 ('item-write', lambda: obj.__setitem__(k, 3)), ('label-write', lambda: obj.__setitem__((k, list(d['span'])[i]), 42)),
                 ('values-setter', lambda: setattr(obj, 'values', 5))]
-    if num and hasattr(obj, 'eval'):
+    if num and n and hasattr(obj, 'eval'):
         # expression evaluation over every numeric variable the object has (own namespace only)
         out.append(('eval-own-variables', lambda: [obj.eval(f'{x} * 2 + 1') for x in num]))
     if 'status' in d['index']:
@@ -144,7 +151,12 @@ def mutations(obj, rng):
                     (f'submodel-check-append', lambda sm=sm: sm.check.append('G'))]
             if 'trace' in sm.index:
                 out.append(('submodel-solve-traced', lambda sm=sm: sm.solve(failures='ignore', errors='ignore', max_iter=3, trace=True)))
-        out.append(('submodels-dict-setitem', lambda: d['submodels'].__setitem__('extra' + newname, next(iter(d['submodels'].values())))))
+        if d['submodels']:
+            out.append(('submodels-dict-setitem', lambda: d['submodels'].__setitem__('extra' + newname, next(iter(d['submodels'].values())))))
+        else:
+            import fsic
+            Sm = type('Sm', (fsic.BaseModel,), {'ENDOGENOUS': ['Y'], 'NAMES': ['Y'], 'CHECK': ['Y']})
+            out.append(('submodels-dict-insert', lambda: d['submodels'].__setitem__('ins' + newname, Sm(range(3)))))
     return out
 
 
